@@ -137,6 +137,35 @@ func (v Val) depth() int {
 
 var logKeys = []string{"k", "user.id", "http.status", "nested", "ü", "", "Z"}
 
+// genLogKey draws the key of the i-th entry of an attribute list or map:
+// mostly an alphabet key made unique by the position, 1 time in 8 exactly the
+// empty key, 1 time in 8 a bare alphabet key (duplicates within one list
+// become possible; the expected side is what the Record's accessors report
+// after the SDK's own de-duplication).
+func genLogKey(t *rapid.T, i int, sep string) string {
+	switch rapid.IntRange(0, 7).Draw(t, "keyshape") {
+	case 6:
+		return rapid.SampledFrom(logKeys).Draw(t, "barekey")
+	case 7:
+		return ""
+	}
+	return fmt.Sprintf("%s%s%d", rapid.SampledFrom(logKeys).Draw(t, "key"), sep, i)
+}
+
+func (v Val) hasEmptyKey() bool {
+	for _, e := range v.L {
+		if e.hasEmptyKey() {
+			return true
+		}
+	}
+	for _, kv := range v.M {
+		if kv.K == "" || kv.V.hasEmptyKey() {
+			return true
+		}
+	}
+	return false
+}
+
 func genVal(t *rapid.T, depth int) Val {
 	kinds := []string{"empty", "bool", "int", "float", "str", "str", "bytes", "slice", "map"}
 	if depth <= 0 {
@@ -162,9 +191,7 @@ func genVal(t *rapid.T, depth int) Val {
 	case "map":
 		n := rapid.IntRange(0, 3).Draw(t, "mlen")
 		for i := 0; i < n; i++ {
-			// distinct keys within one map: the SDK record removes duplicate
-			// keys in attribute values, which is not the exporter's business
-			v.M = append(v.M, LKV{K: fmt.Sprintf("%s%d", rapid.SampledFrom(logKeys).Draw(t, "mkey"), i), V: genVal(t, depth-1)})
+			v.M = append(v.M, LKV{K: genLogKey(t, i, ""), V: genVal(t, depth-1)})
 		}
 	}
 	return v
@@ -183,6 +210,7 @@ func genLogCase(t *rapid.T) LogCase {
 	default:
 		n = rapid.IntRange(2, 6).Draw(t, "small")
 	}
+	n = genSize(t, "batch", []int{n}, 80, 8, 300)
 	for i := 0; i < n; i++ {
 		r := Rec{
 			Res:   rapid.IntRange(0, len(c.Res)-1).Draw(t, "res"),
@@ -209,9 +237,15 @@ func genLogCase(t *rapid.T) LogCase {
 			r.SevText = rapid.SampledFrom([]string{"INFO", "warn", "Fatal!", "ü"}).Draw(t, "sevtext")
 		}
 		r.Attrs = []LKV{{K: "serial", V: Val{K: "int", I: int64(i)}}}
-		na := rapid.SampledFrom([]int{0, 0, 1, 2, 4}).Draw(t, "nattrs")
+		// the Record keeps its first 5 attributes inline and the rest in a
+		// slice: 4 and 5 drawn attributes (+ serial) sit on that boundary
+		na := genSize(t, "nattrs", []int{0, 0, 1, 2, 4, 5}, 80, 6, 160)
 		for j := 0; j < na; j++ {
-			r.Attrs = append(r.Attrs, LKV{K: fmt.Sprintf("%s.%d", rapid.SampledFrom(logKeys).Draw(t, "akey"), j), V: genVal(t, 2)})
+			d := 2
+			if na > 8 {
+				d = 0
+			}
+			r.Attrs = append(r.Attrs, LKV{K: genLogKey(t, j, "."), V: genVal(t, d)})
 		}
 		switch rapid.IntRange(0, 4).Draw(t, "ctx") {
 		case 0, 1:
@@ -495,7 +529,18 @@ func runLogs(c LogCase) ([]vk.Violation, vk.Info) {
 	kinds := map[string]bool{}
 	var boundary, sevOut, ctxSet, ctxUnset, tsUnset, bigDrop, dropped, nilScope, emptyBody, emptyNested, deep bool
 	sevs := map[int]bool{}
+	var emptyKeyAttr, emptyKeyMap, dupKeyAttr bool
+	maxAttrs := 0
 	for _, r := range c.Recs {
+		maxAttrs = max(maxAttrs, len(r.Attrs))
+		seen := map[string]bool{}
+		for _, a := range r.Attrs {
+			emptyKeyAttr = emptyKeyAttr || a.K == ""
+			emptyKeyMap = emptyKeyMap || a.V.hasEmptyKey()
+			dupKeyAttr = dupKeyAttr || seen[a.K]
+			seen[a.K] = true
+		}
+		emptyKeyMap = emptyKeyMap || r.Body.hasEmptyKey()
 		resUsed[r.Res] = true
 		if r.Scope < 0 {
 			nilScope = true
@@ -550,6 +595,13 @@ func runLogs(c LogCase) ([]vk.Violation, vk.Info) {
 	}
 	info.NonTrivial = len(resUsed) >= 2 || len(scopeUsed) >= 2 || boundary
 	info.ClassIf(len(c.Recs) == 0, "empty_batch")
+	info.ClassIf(len(c.Recs) > 20, "batch>20")
+	info.ClassIf(len(c.Recs) >= 256, "batch>=256")
+	info.ClassIf(emptyKeyAttr, "empty_attr_key:record")
+	info.ClassIf(emptyKeyMap, "empty_attr_key:map_value")
+	info.ClassIf(dupKeyAttr, "duplicate_attr_key_in_record")
+	info.ClassIf(maxAttrs > 5, "record_attrs>5")
+	info.ClassIf(maxAttrs > 128, "record_attrs>128")
 	info.ClassIf(len(resUsed) >= 2, "resources>=2")
 	info.ClassIf(len(scopeUsed) >= 2, "scopes>=2")
 	info.ClassIf(nilScope, "nil_scope")
@@ -593,7 +645,7 @@ func knownEmptyAsInvalid(c LogCase, v vk.Violation) bool {
 func TestLogs(t *testing.T) {
 	vk.Run(t, vk.Spec[LogCase]{
 		Property: "C13", Check: "otlp_logs_grpc_http",
-		Rule: "batches of 0..20 records from logtest.RecordFactory over 1..4 resources and 1..4 scopes (nil/empty/sibling scopes), severities 0..24 and out of range, severity text, event name, body and attributes over all eight log.Value kinds nested to depth 3, trace context set / partly set / unset with flags, unset/pre-epoch/2262 timestamps, DroppedAttributes incl. > MaxUint32 and negative; exported by otlploggrpc and otlploghttp (gzip on/off) to loopback collectors; " +
+		Rule: "batches of 0..20 (1 in 80: up to 300) records from logtest.RecordFactory over 1..4 resources and 1..4 scopes (nil/empty/sibling scopes), severities 0..24 and out of range, severity text, event name, body and attributes over all eight log.Value kinds nested to depth 3, attribute and map keys incl. the empty key and duplicates, 0..6 (1 in 80: up to 160) attributes per record, trace context set / partly set / unset with flags, unset/pre-epoch/2262 timestamps, DroppedAttributes incl. > MaxUint32 and negative; exported by otlploggrpc and otlploghttp (gzip on/off) to loopback collectors; " +
 			"non-trivial = the records use >= 2 resources or >= 2 distinct scopes, or carry >= 1 boundary value (time <= epoch or unset or in the last second of int64 nanos, severity outside 0..24, count < 0 or >= MaxUint32-1)",
 		Quick: 2000, Thorough: 30000,
 		Gen: genLogCase, Run: runLogs,
